@@ -198,7 +198,11 @@ ReadySeq(pr, st, mode) ==
 (* binding > signature default.  Arguments are reported under the node's   *)
 (* ORIGINAL parameter names (what the wrapped function sees).              *)
 (***************************************************************************)
+\* a nested graph's OWN binding wins over a binding inherited from a sibling wrapper under the same name
+\* (helpers.py _nested_run_resolves: the outer run leaves the parameter to the nested run)
 Resolve(pr, st, nd, p) == IF p \in DOMAIN st.vals THEN st.vals[p]
+                          ELSE IF HasPair(pr.bound, p) THEN PairGet(pr.bound, p)
+                          ELSE IF IsGraph(nd) /\ EffBoundHas(nd.sub, InnerName(nd, p)) THEN EffBoundVal(nd.sub, InnerName(nd, p))
                           ELSE IF EffBoundHas(pr, p) THEN EffBoundVal(pr, p)
                           ELSE NodeDefaultVal(nd, p)
 \* seq of <<current input name, original parameter, value>>
